@@ -114,7 +114,9 @@ def option_points(case, tier):
             for x in A.relevant_dims(d):
                 if x not in rel:
                     rel.append(x)
-        pts = [dict(A.DEFAULT_OPTS)] + list(A.option_star(rel[:3], values))
+        # (absent / renamed column: the three per-kind selections + sortby)
+        n = 4 if any(d[0] in ('delcol', 'rename') for d in case['d']) else 3
+        pts = [dict(A.DEFAULT_OPTS)] + list(A.option_star(rel[:n], values))
     elif kind == 'pairs':
         pts = list(A.option_star(values=values)) + \
             list(A.option_pairs(values=values))
@@ -1002,8 +1004,9 @@ class C05(Check):
         a0, r0 = self.build(act_spec), self.build(ref_spec)
 
         def frames():
-            adf = self.build(act_spec)
-            return adf, (adf if pair == 'self' else self.build(ref_spec))
+            # new objects for every history (a0 / r0 stay pristine)
+            adf = a0.copy(deep=True)
+            return adf, (adf if pair == 'self' else r0.copy(deep=True))
 
         def spec_paths(entry):
             if entry in refs:
